@@ -1,4 +1,5 @@
 """C02 — initialised jobs persist and reopen exactly; opening is lazy; id / prefix resolution."""
+import copy
 import itertools
 import json
 import os
@@ -70,6 +71,47 @@ def planted_ids(rng, anchor=None):
     return sorted(set(out))
 
 
+STRAY_SUFFIXES = [".bak", "~", ".tmp", ".orig", "0", "f", "_old", " ", " (copy)", ".d"]
+
+
+def stray_names(rng, ids):
+    """1-4 names of workspace entries that are NOT job ids but look like one: an id with a suffix (a user's backup copy
+    '<id>.bak', an editor's '<id>~'), with a prefix, doubled, in upper case, one character short."""
+    out = []
+    for _ in range(rng.randint(1, 4)):
+        i = rng.choice(ids)
+        r = rng.random()
+        if r < 0.6:
+            out.append(i + rng.choice(STRAY_SUFFIXES))
+        elif r < 0.7:
+            out.append(rng.choice(["x", "_", ".", "0"]) + i)
+        elif r < 0.8:
+            out.append(i + rng.choice(ids))
+        elif r < 0.9:
+            out.append(i[:31])
+        elif i.upper() != i:
+            out.append(i.upper())
+    return sorted(set(out))
+
+
+def plant_strays(rng, ids):
+    """ops that put such entries into the workspace: directories (empty, or holding a state point file like a copied job
+    directory would) and plain files"""
+    for name in stray_names(rng, ids):
+        r = rng.random()
+        if r < 0.75:
+            yield ["PlantDir", ["A", "workspace", name]]
+            if r < 0.3:
+                yield ["PlantFile", ["A", "workspace", name, "signac_statepoint.json"], json.dumps({"zz": 0}).encode().hex()]
+        else:
+            yield ["PlantFile", ["A", "workspace", name], b"not a job".hex()]
+
+
+# values a job document holds and a state point is built from (handed to open_job as LIVE collections)
+LIVE_DICTS = [{"x": 1, "grid": [1, 2, 3]}, {"T": 1.0}, {"n": {"m": [True, None]}}, {}]
+LIVE_LISTS = [[1, 2, 3], [], [[1], {"u": "é"}], [0.5]]
+
+
 def provenance(rng):
     """directory names, provenance of the Project objects; C02 switches the working directory by explicit ChDir ops"""
     return {**wsops.provenance(rng, ("A",)), "auto": False}
@@ -78,12 +120,13 @@ def provenance(rng):
 def gen_random(rng):
     sps = type_variants(rng) if rng.random() < 0.25 else [rand_sp(rng) for _ in range(rng.randint(1, 3))]
     return {"kind": "random", "sps": [typed(s) for s in sps], "pseed": rng.randint(0, 10 ** 9),
-            "len": rng.randint(4, 12), "plant": rng.random() < 0.6, "damage": rng.random() < 0.25, "prov": provenance(rng)}
+            "len": rng.randint(4, 12), "plant": rng.random() < 0.6, "damage": rng.random() < 0.25, "prov": provenance(rng),
+            "stray": rng.random() < 0.4, "live": rng.random() < 0.2}
 
 
 def gen_sweep(rng):
     return {"kind": "sweep", "sps": [typed(rand_sp(rng)) for _ in range(rng.randint(1, 2))],
-            "pseed": rng.randint(0, 10 ** 9), "stride": 1, "prov": provenance(rng)}
+            "pseed": rng.randint(0, 10 ** 9), "stride": 1, "prov": provenance(rng), "stray": rng.random() < 0.5}
 
 
 ALPHA = ["open0", "open1", "open2", "init", "session", "id0", "id1", "id2", "ids"]
@@ -160,10 +203,13 @@ def build_ops(desc, W, real_id):
             fake += planted_ids(rng)
         for f in fake:
             yield ["PlantDir", ["A", "workspace", f]]
+        target = rng.choice(ids + fake)
+        if desc.get("stray"):
+            # entries that merely look like the target id (and like other ids) sit next to the jobs
+            yield from plant_strays(rng, [target] + ids + fake)
         if rng.random() < 0.5:
             yield ["ChDir", rng.randrange(8)]
         yield ["NewSession", "A"]
-        target = rng.choice(ids + fake)
         for n in range(0, 33):
             yield ["OpenId", 1, target[:n]]
             if n and rng.random() < 0.3:
@@ -197,6 +243,43 @@ def build_ops(desc, W, real_id):
         yield ["Init", len(W.handles) - 1, False]
         if rng.random() < 0.3:
             yield ["Init", len(W.handles) - 1, True]
+    sps = list(sps)
+    if desc.get("live"):
+        # a state point built from values of another job's document: open_job is handed LIVE collections (nested in a
+        # plain dict, also inside a list); the document changes in place before the job is initialised
+        yield ["OpenSp", 0, sps[0]]
+        hp = len(W.handles) - 1
+        yield ["Init", hp, False]
+        dv, lv = copy.deepcopy(rng.choice(LIVE_DICTS)), copy.deepcopy(rng.choice(LIVE_LISTS))
+        yield ["DocReset", hp, typed({"p": dv, "q": lv})]
+        kd, kl = rng.sample(KEYS, 2)
+        child = {**untyped(rng.choice(sps)), kd: dv, kl: [0, lv]}
+        subst = [[[["k", kd]], [["k", "p"]]], [[["k", kl], ["i", 1]], [["k", "q"]]]]
+        if isinstance(dv.get("n"), dict) and rng.random() < 0.5:
+            subst = [[[["k", kd], ["k", "n"]], [["k", "p"], ["k", "n"]]], subst[1]]
+        tchild = typed(child)
+        yield ["OpenSpLive", rng.randrange(nsess), tchild, hp, subst]
+        hc = len(W.handles) - 1
+        sps.append(tchild)
+        if rng.random() < 0.3:
+            yield ["Cached", hc]
+        dv2 = copy.deepcopy(dv)
+        if "n" in dv2 and len(subst[0][0]) == 2:
+            dv2["n"]["x"] = 2
+            yield ["DocEditIn", hp, "p", [["k", "n"]], ["set", "x", typed(2)], typed(dv2)]
+        else:
+            dv2["x"] = 2
+            yield ["DocEditIn", hp, "p", [], ["set", "x", typed(2)], typed(dv2)]
+        yield ["DocEditIn", hp, "q", [], ["append", typed(4)], typed(lv + [4])]
+        yield rng.choice([["Cached", hc], ["Sp", hc]])
+        if rng.random() < 0.4:
+            yield ["ChDir", rng.randrange(8)]
+        wsops.settle()
+        yield ["Init", hc, False]
+        yield ["Init", hc, False]
+        yield ["Sp", hc]
+    if desc.get("stray"):
+        yield from plant_strays(rng, [real_id(s) for s in sps] + planted)
     for _ in range(desc["len"]):
         r = rng.random()
         nh = len(W.handles)
